@@ -369,7 +369,7 @@ fn clear_hash_of_claim(log: &[merlin::vlog::Entry], pres: &[u8], public: &[u8], 
 
 fn c07_suite<S: ShortGroupSignatureScheme>(em: &mut Emitter, base: &mut Rng, suite: &str) {
     let off = if suite == "bbs" { 0 } else { 1 };
-    let kinds = ["commitment", "commitment+range", "verenc", "verenc+scalar", "ved", "revocation", "membership", "signature-only", "equality", "equality2", "commitment-twice", "commitment-two-claims", "commitment+range-twice"];
+    let kinds = ["commitment", "commitment+range", "verenc", "verenc+scalar", "ved", "revocation", "membership", "signature-only", "equality", "equality2", "commitment-twice", "commitment-two-claims", "commitment+range-twice", "equal-hidden-claims"];
     for k in 0..em.n(20, 200) {
         if !em.mine(2 * k + off) {
             continue;
@@ -380,13 +380,13 @@ fn c07_suite<S: ShortGroupSignatureScheme>(em: &mut Emitter, base: &mut Rng, sui
             continue;
         }
         let n_claims = 4 + rng.below(3) as usize;
-        let n_claims = if kind == "equality2" { 6 } else { n_claims };
+        let n_claims = if kind == "equality2" || kind == "equal-hidden-claims" { 6 } else { n_claims };
         let mut mix = Mix { n_creds: if kind.starts_with("equality") { 2 } else { 1 }, n_claims, age: rng.range(18, 80), ..Default::default() };
         // the hidden claim under attack
         let ci = match kind {
             "commitment+range" | "commitment+range-twice" => 2,
             "revocation" => 0,
-            "membership" | "equality" | "equality2" => 1,
+            "membership" | "equality" | "equality2" | "equal-hidden-claims" => 1,
             _ => 1 + rng.below(n_claims as u64 - 1) as usize,
         };
         mix.disclosed = (0..mix.n_creds).map(|_| LABELS.iter().enumerate().take(n_claims).filter(|(i, _)| *i != ci && *i != 0 && rng.chance(1, 3)).map(|(_, l)| l.to_string()).collect()).collect();
@@ -445,6 +445,26 @@ fn c07_suite<S: ShortGroupSignatureScheme>(em: &mut Emitter, base: &mut Rng, sui
         if kind == "commitment-twice" {
             scn.add_second_commitment(rng, ci, false);
         }
+        // two undisclosed claims of one credential with the same value (name = city), no statement about either
+        if kind == "equal-hidden-claims" {
+            let mut c0 = scn.bundles[0].credential.claims.clone();
+            c0[0] = RevocationClaim::from(format!("c07-eqh-{}", k)).into();
+            c0[5] = c0[1].clone();
+            if let Ok(b) = scn.issuers[0].sign_credential(&c0) {
+                scn.credentials.insert(scn.sig_ids[0].clone(), b.credential.clone().into());
+                scn.bundles[0] = b;
+            }
+            let stmts: Vec<Statements<S>> = scn.schema.statements.values().map(|st| match st {
+                Statements::Signature(ss) => {
+                    let mut t = (**ss).clone();
+                    t.disclosed = Default::default();
+                    t.issuer = scn.bundles[0].issuer.clone();
+                    t.into()
+                }
+                o => o.clone(),
+            }).collect();
+            scn.schema = credx::presentation::PresentationSchema::new_with_id(&stmts, &scn.schema.id);
+        }
         // two range statements over one commitment ("age >= a" and "age <= b" written as two requirements)
         if kind == "commitment+range-twice" {
             let mut stmts: Vec<Statements<S>> = scn.schema.statements.values().cloned().collect();
@@ -493,6 +513,23 @@ fn c07_suite<S: ShortGroupSignatureScheme>(em: &mut Emitter, base: &mut Rng, sui
             public_bytes.extend(serde_json::to_vec(&scn.schema).unwrap_or_default());
             public_bytes.extend_from_slice(&scn.nonce);
             found.extend(clear_hash_of_claim(&prover_log, &pres_bytes, &public_bytes, claim));
+        }
+        // two transmitted responses coincide: their nonces and their secrets coincide — with fresh nonces per response
+        // this never happens, whatever the secrets are
+        {
+            // (inside one signature proof's response vector: responses shared *between* proofs are how predicates link)
+            let plain: Vec<&(String, Scalar)> = view.scalars.iter().filter(|(n, _)| n.contains("/pok/proof/")).collect();
+            for (i, (an, a)) in plain.iter().enumerate() {
+                if bool::from(a.is_zero()) {
+                    continue;
+                }
+                for (bn, b) in plain.iter().skip(i + 1) {
+                    let same_vector = an.rsplitn(2, '/').nth(1) == bn.rsplitn(2, '/').nth(1);
+                    if same_vector && a == b {
+                        found.push(format!("responses-coincide:{}:{}", an, bn));
+                    }
+                }
+            }
         }
         // a group element transmitted at two places: two sub-proofs drew the same randomness
         for (i, (an, a)) in view.g1.iter().enumerate() {
